@@ -44,6 +44,28 @@ def part_a(ctx):
         for m in bad:
             m["compiler"] = " ".join(v)
             mism.append(m)
+    # A program on which the cgen-shaped model reads a local that the generated C does not save has no exported
+    # histories behind that read (the model stops there).  What the C does with such a program is decided against the
+    # IDEAL semantics (every local survives a suspension) under the same split schedules: a difference there is the
+    # observable consequence of the missing save (seeded change C04-m1: the index local of `this.tab[i] = read_u8?()`).
+    poisoned = []
+    for (p, kind, detail, inv, tail) in viols:
+        if p["name"] not in [q["name"] for q in poisoned]:
+            poisoned.append(p)
+    if poisoned:
+        cfg2 = wcorepipe.cfg_text(st["maxcalls"], "ideal", "split", st["fuel"], ["ExportInv"], view=False)
+        v2, hists2, stats2 = wcorepipe.run_tlc_groups(ctx, poisoned, cfg2, "C05 ideal/split (programs with an unsaved local)", group=st["group"],
+                                                      workers=st["workers"], par=st["par"])
+        stats["states"] += stats2["states"]
+        stats["generated"] += stats2["generated"]
+        stats["runs"] += stats2["runs"]
+        for v, exe in b.exes.items():
+            bad, calls = wcorepipe.replay(ctx, b, hists2, exe, dead=dead)
+            total_calls += calls
+            for m in bad:
+                m["compiler"] = " ".join(v)
+                mism.append(m)
+        ctx.log("%d programs with an unsaved local: %d more histories from the ideal semantics replayed" % (len(poisoned), len(hists2)))
     # a poison read is a violation only if it is observable: replay found a mismatch for that program
     mism_progs = {m["prog"] for m in mism}
     seen = set()
